@@ -56,11 +56,8 @@ def generate(ck, tier):
     frag = []
     for chans in (("ChansPRU",) if tier == "quick" else ("ChansPRU", "ChansPR")):
         p3 = os.path.join(ck.dir, f"sched_{chans}_{tier}_{os.getpid()}.ndjson")
-        r3 = sc.tlc_mc(ck, "fifo_" + chans, mode="fifo", budget=1, fair=True, chans=chans,
-                       msgs="MsgsPR3", init_a="{14}", init_b="{0}", win=4, sched_sink=p3,
-                       timeout=900 if tier == "quick" else 3000)
-        vlib.tlc_ok(r3, "fifo " + chans)
-        ck.add_tlc(r3, f"fifo/{chans} 3-fragment PR message (liveness + faults)")
+        sc.tlc_mc_split(ck, "fifo_" + chans, f"fifo/{chans} 3-fragment PR message", p3, mode="fifo", budget=1, chans=chans,
+                        msgs="MsgsPR3", init_a="{14}", init_b="{0}", win=4, timeout=900 if tier == "quick" else 3000)
         frag.append((chans == "ChansPR", sc.schedules_from(p3)))
     if tier == "quick":
         # the schedules are content addresses: the ordered variant of the channel runs the same ones
@@ -179,6 +176,18 @@ def build_scenarios(singles, pairs, frag, tier):
                 scen.append(sc.scenario(f"f{k:04d}", f, chans, msgs, deadline_ms=4000,
                                         cfg={"init_tsn_a": WRAP_A - 1, "init_tsn_b": 7000} if k % 7 == 0 else None))
                 k += 1
+    # one side closes a channel (stream reset) while the peer is still sending on it: Close at most once at
+    # both ends, nothing delivered after Close, the other channels unaffected
+    for i, f in enumerate([[]] + sc.sample(singles, 5 if tier == "quick" else 40, vlib.seed() + 6)):
+        closer, sender = ("A", "B") if i % 2 == 0 else ("B", "A")
+        chans = [sc.chan(1), sc.chan(2, ordered=(i % 3 != 2)), sc.chan(3, ordered=False)]
+        msgs = [{"from": sender, "sid": 2, "len": 1100, "task": 1} for _ in range(60)]
+        msgs += [{"from": sender, "sid": 1, "len": rng.choice(SIZES), "task": 2} for _ in range(4)]
+        msgs += [{"from": closer, "sid": 3, "len": rng.choice(SIZES), "task": 3} for _ in range(4)]
+        msgs += [{"from": "A", "sid": 1, "len": 10, "phase": 2}, {"from": "B", "sid": 1, "len": 10, "phase": 2}]
+        s = sc.scenario(f"k{i:03d}", stretch(f, rng.choice([1, 5, 20])), chans, msgs)
+        s["close_mid"] = [{"side": closer, "sid": 2, "after_recv": rng.choice([1, 3, 10])}]
+        scen.append(s)
     for i, f in enumerate([[]] + sc.sample(singles, n_s, vlib.seed() + 4)):
         chans, msgs = wl_sizes(rng, big=(tier == "thorough" or i % 4 == 0))
         scen.append(sc.scenario(f"z{i:03d}", stretch(f, rng.choice([1, 7, 20])), chans, msgs,
